@@ -28,6 +28,7 @@ import (
 	"github.com/slackhq/nebula/overlay"
 	"github.com/slackhq/nebula/udp"
 	"github.com/slackhq/nebula/verifkit"
+	"github.com/slackhq/nebula/verifkit/verifsync"
 )
 
 type c34Net struct {
@@ -335,6 +336,34 @@ func TestVerifC34Stress(t *testing.T) {
 				}
 			})
 		})
+	}
+	c34LockOrder(r)
+}
+
+// c34LockOrder judges what the lock-order instrumentation (kit/verifsync, applied to every mutex of package nebula in the
+// build overlay) recorded over all runs of this process: a cycle in the lock-class graph is a deadlock waiting for its
+// interleaving, whether or not this run hit it.
+func c34LockOrder(r *verifkit.Reporter) {
+	acq, nest, foreign, classes := verifsync.Stats()
+	r.Count("lockorder.acquisitions", int(acq))
+	r.Count("lockorder.nested_acquisitions", int(nest))
+	r.Count("lockorder.unlocks_on_other_goroutine(not tracked)", int(foreign))
+	r.Info("lockorder.classes", classes)
+	var es []string
+	for _, e := range verifsync.Edges() {
+		es = append(es, fmt.Sprintf("%s -> %s (%d)", e.From, e.To, e.Count))
+		r.DistinctClass("lock order " + e.From + " -> " + e.To)
+	}
+	r.Info("lockorder.edges", es)
+	r.Count("lockorder.distinct_edges", len(es))
+	for _, c := range verifsync.Cycles() {
+		r.Violation("C34/lock-order-inversion:"+c.Key, "lock classes are acquired in both orders (deadlock when the two paths interleave): "+c.Key, map[string]any{"cycle": c.Key, "edges": c.String()})
+	}
+	for cls, st := range verifsync.RecursiveReadLocks() {
+		r.Violation("C34/recursive-read-lock:"+cls, "a goroutine read-locks "+cls+" while already holding the same instance for reading (deadlocks once a writer queues in between)", map[string]any{"class": cls, "stack": st})
+	}
+	for _, e := range verifsync.SelfEdges() {
+		r.Count("lockorder.same_class_nesting."+e.From, int(e.Count))
 	}
 }
 
